@@ -58,10 +58,18 @@ def actionJson (a : TableParse.Action) : Json :=
 reader's model computes from the text itself -/
 def exactJson (flavor : Str) (A : Answers) (o : Opts) (lines : List Str) (items : List Item) : Json :=
   let env : Cond.Env := ⟨flavor, [ExpandTable.sExactW]⟩
-  let direct := match TableParse.tableActions TableParse.repaired none env (ExpandTable.expandedText items true) with
+  let directR := TableParse.tableActions TableParse.repaired none env (ExpandTable.expandedText items true)
+  let direct := match directR with
     | .ok acts => Json.arr (acts.map actionJson).toArray
     | .err _ => Json.str "error"
     | .fuel => Json.str "fuel"
+  -- `toPin` (= Action.processArgs on a pin action) on every setup command of that list: [optional, product, version] or null
+  let pins := match directR with
+    | .ok acts => Json.arr ((acts.filter fun a => a.cmd == TableParse.Cmd.setupRequired.name).map fun a =>
+        match ExpandTable.toPin a with
+        | some (opt, n, v) => Json.arr #[Json.bool opt, ofStr n, ofStr v]
+        | none => Json.null).toArray
+    | _ => Json.null
   let composed2 := match ExpandTable.expandParts A o lines with
     | .ok p => Json.arr ((C11Spec.denoteTable env (C11Spec.tableAbs (ExpandTable.tableOf none p))).map actionJson).toArray
     | .error _ => Json.null
@@ -71,7 +79,7 @@ def exactJson (flavor : Str) (A : Answers) (o : Opts) (lines : List Str) (items 
               -- C17_exact_actions_blocks: non-setup lines grouped into lines and `if` chains (checked grouping)
               ("blocksOK", ExpandTable.expandOK2 none A o lines), ("inert2", ExpandTable.expandInert2 none env A o lines),
               ("composed2", composed2),
-              ("direct", direct)]
+              ("pins", pins), ("direct", direct)]
 
 /-- `{"m":"c17","op":"expand","lines":[..],"pins":[[n,v]..],"toplevel":s|null,"force":b,"expandVersions":b,
 "addExactBlock":b,"recurse":b,"spv":[[n,v]..],"sv":[[n,v]..],"deps":[[n,v,null|[[n,v,opt]..]]..]}` →
